@@ -90,7 +90,7 @@ def call(
     for exponent, coefficient in zip(poly.exponents, poly.coefficients):
         term = ones
         for power, name in zip(exponent, poly.names):
-            term = term * parameters[name] ** power
+            term = term * parameters[name] ** int(power)
         if isinstance(term, numpoly.ndpoly):
             tmp = numpoly.outer(coefficient, term)
         else:
